@@ -243,7 +243,9 @@ def build_scenario(rng, kind, variant):
         # silent errors in synced data and parity (in the skip scenario they share stripes with files that fail during the sync)
         targets = [(f, i) for f in c.files for i, b in enumerate(f.blocks)]
         # skip scenario: dense silent damage, so that the stripes of the files failing during the sync hold silent errors too
-        nsil = rng.randint(2, 6) if kind != "skip" else max(2, int(len(targets) * rng.choice([0.2, 0.4, 0.6])))
+        nsil = rng.randint(2, 6) if kind == "errors" else max(2, int(len(targets) * rng.choice([0.2, 0.4, 0.6])))
+        if kind == "mixed" and rng.random() < 0.5:
+            nsil = rng.randint(2, 6)
         for (f, i) in rng.sample(targets, min(len(targets), nsil)):
             dmg.damage_file_block(a, c, f, i, rng, rng.choice(["bit", "block"]))
         sm = sorted(c.stripe_map())
